@@ -28,6 +28,17 @@ def py_inputs(desc):
     return out
 
 
+def py_storage(st):
+    """`"dict"` or `{"d": [[key, name], …]}` (a tuple-valued output name is keyed by its names joined with ',')"""
+    if isinstance(st, str):
+        return st
+    return {(tuple(k.split(",")) if "," in k else k): v for k, v in st["d"]}
+
+
+def py_fixed(fx):
+    return None if fx is None else {a: (s if isinstance(s, int) else slice(*s["sl"])) for a, s in fx}
+
+
 def snapshot(folder):
     """path ↦ (sha256 of the content, inode, mtime_ns); directories are listed with an empty hash"""
     snap = {}
@@ -61,7 +72,7 @@ def run_valid(req, folder):
     try:
         p, _log = mapgen.build(req["desc"])
         mapgen.quiet(p.map, py_inputs(req["desc"]), run_folder=folder, internal_shapes=mapgen.internal_shapes_arg(req["desc"]),
-                     parallel=False, storage=req["storage"], cleanup=True)
+                     parallel=False, storage=py_storage(req["storage"]), cleanup=True)
     except Exception as e:  # noqa: BLE001
         return {"err": exc_enum(e), "msg": str(e)[:200]}
     return None
@@ -89,8 +100,12 @@ def run_request(req, folder, cleanup=False):
                 kw["executor"] = {(first[0] if len(first) == 1 else tuple(first)): ex, "": ex}
             else:
                 kw["executor"] = ex
+        if req.get("output_names") is not None:
+            kw["output_names"] = set(req["output_names"])
+        if req.get("fixed") is not None:
+            kw["fixed_indices"] = py_fixed(req["fixed"])
         mapgen.quiet(p.map, py_inputs(req["desc"]), run_folder=folder, internal_shapes=mapgen.internal_shapes_arg(req["desc"]),
-                     parallel=bool(req.get("parallel", False)), storage=req["storage"], cleanup=cleanup, **kw)
+                     parallel=bool(req.get("parallel", False)), storage=py_storage(req["storage"]), cleanup=cleanup, **kw)
     except Exception as e:  # noqa: BLE001
         obs.update(at="map", err=exc_enum(e), msg=str(e)[:160])
     finally:
